@@ -117,6 +117,10 @@ var valueSizes = []int{0, 1, 2, 7, 30, 1095, 1096, 1097, 1500, 2192, 5000}
 
 func genValue(t *rapid.T, label string) []byte {
 	size := rapid.SampledFrom(valueSizes).Draw(t, label+"Size")
+	if rapid.IntRange(0, 39).Draw(t, label+"Big") == 0 {
+		// rarely: more than 64 KiB, more than a socket buffer
+		size = rapid.SampledFrom([]int{65536, 70000, 300000}).Draw(t, label+"BigSize")
+	}
 	if size >= 1500 {
 		size += rapid.IntRange(-3, 3).Draw(t, label+"Jitter")
 	}
@@ -179,6 +183,7 @@ type cmdGenOpts struct {
 	TwoPorts  bool
 	NoExpiry  bool // TTLs only from {0, far future}
 	NoGat     bool
+	GetE      bool // gete (binary, single-tier orchestrator only)
 	MaxGetLen int
 }
 
@@ -186,6 +191,9 @@ func genCmd(t *rapid.T, o cmdGenOpts, now int64) wire.Cmd {
 	kinds := []wire.Kind{wire.Set, wire.Set, wire.Add, wire.Replace, wire.Append, wire.Prepend, wire.Delete, wire.Touch, wire.Get, wire.Get}
 	if o.Binary && !o.NoGat {
 		kinds = append(kinds, wire.Gat)
+	}
+	if o.Binary && o.GetE {
+		kinds = append(kinds, wire.GetE)
 	}
 	k := rapid.SampledFrom(kinds).Draw(t, "kind")
 	c := wire.Cmd{Kind: k}
@@ -222,7 +230,7 @@ func genCmd(t *rapid.T, o cmdGenOpts, now int64) wire.Cmd {
 	case wire.Touch, wire.Gat:
 		c.Key = rapid.SampledFrom(o.Keys).Draw(t, "key")
 		c.Exptime = ttl()
-	case wire.Get:
+	case wire.Get, wire.GetE:
 		max := o.MaxGetLen
 		if max == 0 {
 			max = 5
